@@ -54,7 +54,7 @@ def gen(seed, tier):
         if r.random() < 0.3:
             crashes.append(c1 + P.loguniform_int(r, 1, 80))
         f["crash_at_consult"] = crashes
-    pl["objective_form"] = r.choice(["closure", "lambda", "callable", "global_counter"])
+    pl["objective_form"] = r.choice(["closure", "lambda", "callable", "global_counter", "main_def"])
     if seed % 5 == 0:
         pl["redirect_stdout"] = True
     for l in pl["levels"]:
